@@ -32,11 +32,25 @@ type methodTarget struct {
 	Sync    []string // fields whose statements are skipped
 	Methods []string
 	Out     string
+	// optional: opaque value types. Types maps Go type text to a Lean type (a type variable of TypeVars);
+	// Accessors gives the Lean result type of niladic methods called on opaque values (`qc.View()`), which
+	// become function parameters `<T>_<M> : T → R`; Ext lists receiver fields that are other components:
+	// `v, ok := s.<ext>.<M>(arg)` becomes a function parameter `<ext>_<M> : A → R × Bool`.
+	TypeVars  []string
+	Types     map[string]string
+	Accessors map[string]string
+	Ext       map[string][2]string // "<ext>.<M>" -> {argument Lean type, result Lean type}
 }
 
 var methodTargets = []methodTarget{
 	{"core/eventloop/queue.go", "queue", []string{"entries", "head", "tail"}, []string{"mut", "readyChan"},
-		[]string{"push", "pop", "len"}, "Queue"},
+		[]string{"push", "pop", "len"}, "Queue", []string{"α"}, nil, nil, nil},
+	{"protocol/viewstates.go", "ViewStates", []string{"highTC", "highQC", "view", "committedBlock"}, []string{"mut", "blockchain", "auth"},
+		[]string{"UpdateHighQC", "UpdateHighTC", "NextView", "EnterViewAfter", "View", "HighQC", "HighTC", "UpdateCommittedBlock", "CommittedBlock"},
+		"ViewStates", []string{"QC", "TC", "Blk", "Hash"},
+		map[string]string{"hotstuff.QuorumCert": "QC", "hotstuff.TimeoutCert": "TC", "*hotstuff.Block": "Blk", "hotstuff.View": "Int", "error": "Bool"},
+		map[string]string{"View": "Int", "BlockHash": "Hash"},
+		map[string][2]string{"blockchain.Get": {"Hash", "Blk"}}},
 }
 
 type mtr struct {
@@ -47,6 +61,25 @@ type mtr struct {
 	err    error
 	notes  []string
 	checks []string // pending index checks of the statement being translated
+	vtype  map[string]string // Lean type of parameters, fields (by Lean variable name) and locals where known
+	used   []string          // function parameters (accessors, external calls) used by the method, "name : type"
+	resTy  []string          // Lean result types of the method being translated
+}
+
+func (t *mtr) use(decl string) {
+	for _, u := range t.used {
+		if u == decl {
+			return
+		}
+	}
+	t.used = append(t.used, decl)
+}
+
+func (t *mtr) lt(goType string) string {
+	if ty := leanType(goType); ty != "" {
+		return ty
+	}
+	return t.tg.Types[goType]
 }
 
 func (t *mtr) src(n ast.Node) string {
@@ -151,6 +184,19 @@ func (t *mtr) expr(e ast.Expr) string {
 		}
 		return t.fail(e, "operator")
 	case *ast.CallExpr:
+		if exprName(x.Fun) == "fmt.Errorf" {
+			return "true" // an error value: only its presence is modelled
+		}
+		if se, ok := x.Fun.(*ast.SelectorExpr); ok && len(x.Args) == 0 {
+			if rty, ok := t.tg.Accessors[se.Sel.Name]; ok {
+				recv := t.expr(se.X)
+				if ty := t.vtype[recv]; ty != "" && ty != "Int" && ty != "Bool" {
+					fn := ty + "_" + se.Sel.Name
+					t.use(fmt.Sprintf("(%s : %s → %s)", fn, ty, rty))
+					return "(" + fn + " " + recv + ")"
+				}
+			}
+		}
 		if exprName(x.Fun) == "len" && len(x.Args) == 1 {
 			if f, ok := t.isField(x.Args[0]); ok && t.modelled(f) && t.ftype[f] == "[]any" {
 				return "(" + fieldVar(t.recv, f) + ".length : Int)"
@@ -165,6 +211,14 @@ func (t *mtr) cond(e ast.Expr) string {
 	switch x := e.(type) {
 	case *ast.ParenExpr:
 		return "(" + t.cond(x.X) + ")"
+	case *ast.Ident:
+		if t.vtype[leanIdent(x.Name)] == "Bool" {
+			return "(" + leanIdent(x.Name) + " = true)"
+		}
+	case *ast.UnaryExpr:
+		if id, ok := x.X.(*ast.Ident); ok && x.Op == token.NOT && t.vtype[leanIdent(id.Name)] == "Bool" {
+			return "(" + leanIdent(id.Name) + " = false)"
+		}
 	case *ast.BinaryExpr:
 		switch x.Op {
 		case token.LAND:
@@ -370,13 +424,43 @@ func (t *mtr) block(list []ast.Stmt, c *mctx, ind string, rest func(c *mctx, ind
 		if len(x.Results) == 0 {
 			rs = c.results
 		} else {
-			for _, r := range x.Results {
+			for i, r := range x.Results {
+				if id, ok := r.(*ast.Ident); ok && id.Name == "nil" && i < len(t.resTy) && t.resTy[i] == "Bool" {
+					rs = append(rs, "false") // nil error
+					continue
+				}
 				rs = append(rs, t.expr(r))
 			}
+		}
+		if len(rs) == 0 {
+			rs = []string{"()"}
 		}
 		pre := t.flushChecks(ind)
 		return pre + ind + "(" + tupleOf(c.state) + ", " + tupleOf(rs) + ", inb)\n"
 	case *ast.AssignStmt:
+		if len(x.Lhs) == 2 && len(x.Rhs) == 1 && x.Tok == token.DEFINE {
+			// v, ok := s.<ext>.<M>(arg)
+			if call, ok := x.Rhs[0].(*ast.CallExpr); ok && len(call.Args) == 1 {
+				if se, ok := call.Fun.(*ast.SelectorExpr); ok {
+					if f, ok := t.isField(se.X); ok {
+						if sig, ok := t.tg.Ext[f+"."+se.Sel.Name]; ok {
+							v0, ok0 := x.Lhs[0].(*ast.Ident)
+							v1, ok1 := x.Lhs[1].(*ast.Ident)
+							if ok0 && ok1 {
+								fn := f + "_" + se.Sel.Name
+								t.use(fmt.Sprintf("(%s : %s → %s × Bool)", fn, sig[0], sig[1]))
+								arg := t.expr(call.Args[0])
+								c = c.clone()
+								a, b := leanIdent(v0.Name), leanIdent(v1.Name)
+								c.scope[a], c.scope[b] = true, true
+								t.vtype[a], t.vtype[b] = sig[1], "Bool"
+								return fmt.Sprintf("%slet r' := (%s %s)\n%slet %s := r'.1\n%slet %s := r'.2\n", ind, fn, arg, ind, a, ind, b) + next(c, ind)
+							}
+						}
+					}
+				}
+			}
+		}
 		if len(x.Lhs) != 1 || len(x.Rhs) != 1 {
 			t.fail(s, "multi-assign")
 			return ""
@@ -477,22 +561,27 @@ func (t *mtr) method(fd *ast.FuncDecl) (string, error) {
 	t.notes = nil
 	t.checks = nil
 	t.recv = fd.Recv.List[0].Names[0].Name
+	t.vtype = map[string]string{}
+	t.used = nil
+	t.resTy = nil
 	c := &mctx{scope: map[string]bool{"inb": true}}
 	var binders []string
 	for _, f := range t.tg.Fields {
 		v := fieldVar(t.recv, f)
 		c.scope[v] = true
 		c.state = append(c.state, v)
-		binders = append(binders, fmt.Sprintf("(%s : %s)", v, leanType(t.ftype[f])))
+		binders = append(binders, fmt.Sprintf("(%s : %s)", v, t.lt(t.ftype[f])))
+		t.vtype[v] = t.lt(t.ftype[f])
 	}
 	for _, f := range fd.Type.Params.List {
-		ty := leanType(t.src(f.Type))
+		ty := t.lt(t.src(f.Type))
 		if ty == "" {
 			return "", fmt.Errorf("parameter type %s", t.src(f.Type))
 		}
 		for _, n := range f.Names {
 			v := leanIdent(n.Name)
 			c.scope[v] = true
+			t.vtype[v] = ty
 			binders = append(binders, fmt.Sprintf("(%s : %s)", v, ty))
 		}
 	}
@@ -500,7 +589,7 @@ func (t *mtr) method(fd *ast.FuncDecl) (string, error) {
 	var inits []string
 	if fd.Type.Results != nil {
 		for _, f := range fd.Type.Results.List {
-			ty := leanType(t.src(f.Type))
+			ty := t.lt(t.src(f.Type))
 			if ty == "" {
 				return "", fmt.Errorf("result type %s", t.src(f.Type))
 			}
@@ -517,14 +606,19 @@ func (t *mtr) method(fd *ast.FuncDecl) (string, error) {
 			}
 		}
 	}
-	if len(resTypes) == 0 {
-		return "", fmt.Errorf("no results")
+	noResults := len(resTypes) == 0
+	if noResults {
+		resTypes = []string{"Unit"}
 	}
+	t.resTy = resTypes
 	var stTypes []string
 	for _, f := range t.tg.Fields {
-		stTypes = append(stTypes, leanType(t.ftype[f]))
+		stTypes = append(stTypes, t.lt(t.ftype[f]))
 	}
 	body := t.block(fd.Body.List, c, "  ", func(c *mctx, ind string) string {
+		if noResults {
+			return ind + "(" + tupleOf(c.state) + ", (), inb)\n"
+		}
 		if len(c.results) == 0 {
 			t.fail(fd, "falls off the end without named results")
 			return ""
@@ -535,8 +629,22 @@ func (t *mtr) method(fd *ast.FuncDecl) (string, error) {
 		return "", t.err
 	}
 	var sb strings.Builder
-	fmt.Fprintf(&sb, "def %s_%s {α : Type} %s :\n    (%s) × (%s) × Bool :=\n", t.tg.Recv, fd.Name.Name, strings.Join(binders, " "),
-		strings.Join(stTypes, " × "), strings.Join(resTypes, " × "))
+	ext := ""
+	if len(t.used) > 0 {
+		ext = strings.Join(t.used, " ") + "\n    "
+	}
+	sigText := ext + strings.Join(binders, " ") + strings.Join(stTypes, " ") + strings.Join(resTypes, " ")
+	var tvs []string
+	for _, tv := range t.tg.TypeVars {
+		for _, w := range strings.FieldsFunc(sigText, func(r rune) bool { return strings.ContainsRune(" ()×→:", r) }) {
+			if w == tv {
+				tvs = append(tvs, tv)
+				break
+			}
+		}
+	}
+	fmt.Fprintf(&sb, "def %s_%s {%s : Type} %s%s :\n    (%s) × (%s) × Bool :=\n", t.tg.Recv, fd.Name.Name, strings.Join(tvs, " "), ext,
+		strings.Join(binders, " "), strings.Join(stTypes, " × "), strings.Join(resTypes, " × "))
 	sb.WriteString("  let inb : Bool := true\n")
 	for _, i := range inits {
 		sb.WriteString(i)
@@ -553,10 +661,12 @@ func translateMethods(repo, outDir string) ([]fnOut, error) {
 		var sb strings.Builder
 		fmt.Fprintf(&sb, "-- GENERATED by /verif/tools/gofacts (methods.go) from %s on every run; do not edit.\n", tg.File)
 		sb.WriteString("set_option linter.unusedVariables false\nnamespace HsVerif.Gen.Methods\n\n")
-		sb.WriteString("/-- Go `s[i]` on a slice of `any` (nil = none); the in-range condition is tracked separately in `inb`. -/\n")
-		sb.WriteString("def getI {α : Type} (l : List (Option α)) (i : Int) : Option α := l.getD i.toNat none\n")
-		sb.WriteString("/-- Go `s[i] = x` -/\n")
-		sb.WriteString("def setI {α : Type} (l : List (Option α)) (i : Int) (x : Option α) : List (Option α) := l.set i.toNat x\n\n")
+		if tg.Out == "Queue" {
+			sb.WriteString("/-- Go `s[i]` on a slice of `any` (nil = none); the in-range condition is tracked separately in `inb`. -/\n")
+			sb.WriteString("def getI {α : Type} (l : List (Option α)) (i : Int) : Option α := l.getD i.toNat none\n")
+			sb.WriteString("/-- Go `s[i] = x` -/\n")
+			sb.WriteString("def setI {α : Type} (l : List (Option α)) (i : Int) (x : Option α) : List (Option α) := l.set i.toNat x\n\n")
+		}
 		t := &mtr{fset: fset, tg: tg, ftype: map[string]string{}}
 		if err == nil {
 			for _, d := range f.Decls {
@@ -584,7 +694,7 @@ func translateMethods(repo, outDir string) ([]fnOut, error) {
 		}
 		structOK := err == nil
 		for _, fl := range tg.Fields {
-			if leanType(t.ftype[fl]) == "" {
+			if t.lt(t.ftype[fl]) == "" {
 				structOK = false
 			}
 		}
